@@ -81,6 +81,13 @@ theorem gate_nftUpdateAttributes (env : Env) (c : Call) (ctx : Ctx) :
     Post (esdtNFTUpdateAttributes env c) ctx (RoleGated roleNFTUpdateAttributes c ctx) := by
   unfold esdtNFTUpdateAttributes checkCreateBurnAdd checkBasic; role_gate
 
+theorem spec_checkAllowedIf (b : Bool) (a tok role : Bytes) (c : Ctx) :
+    Post (checkAllowedIf b a tok role) c (fun _ c' => c'.accts = c.accts ∧ (b = true → HasRole c.accts a tok role)) := by
+  unfold checkAllowedIf
+  split
+  · exact Post.mono (spec_checkAllowed a tok role c) (fun _ _ ⟨x, y⟩ => ⟨x, fun _ => y⟩)
+  · rename_i h; exact Post.pure ⟨rfl, fun h' => absurd h' h⟩
+
 /-- NFT create with quantity > 1 additionally needs the add-quantity role -/
 theorem gate_nftCreate_quantity (env : Env) (c : Call) (ctx : Ctx) :
     Post (esdtNFTCreate env c) ctx (fun _ _ => ∀ q, c.args[1]? = some q → 1 < beNat q →
@@ -93,20 +100,14 @@ theorem gate_nftCreate_quantity (env : Env) (c : Call) (ctx : Ctx) :
   apply Post.mono (ro_getLatestNonce _ _ c1)
   intro raw c2 h2
   xsteps
-  split
-  · apply Post.bind
-    apply Post.mono (spec_checkAllowed _ _ _ c2)
-    intro _ c3 ⟨_, hr⟩
-    apply Post.intro
-    intro _ _ q hq _
-    rw [h2, h1] at hr
-    exact ⟨_, ‹c.args[0]? = some _›, hr⟩
-  · rename_i hq1
-    have h1' := ‹c.args[1]? = some _›
-    apply Post.intro
-    intro _ _ q hq hgt
-    rw [hq] at h1'; cases h1'
-    exact absurd hgt hq1
+  apply Post.mono (spec_checkAllowedIf _ _ _ _ c2)
+  intro _ c3 ⟨_, hr⟩
+  have h1' := ‹c.args[1]? = some _›
+  apply Post.intro
+  intro _ _ q hq hgt
+  rw [hq] at h1'; cases h1'
+  rw [h2, h1] at hr
+  exact ⟨_, ‹c.args[0]? = some _›, hr (by simpa using hgt)⟩
 
 /-- system-only functions -/
 theorem sys_esdtRoles (s : Bool) (env : Env) (c : Call) (ctx : Ctx) :
